@@ -23,7 +23,7 @@ pub fn def() -> PropDef {
     PropDef {
         id: "C15",
         level: "exploration",
-        rule: "all policies of both kinds with <= 2 filters, each filter exact/prefix over byte strings of length <= 2 from {a, b, ':', 0xff, 0x00} (empty filter, non-UTF-8, a colon for the textual form), evaluated on all keys of length <= 3 over the same bytes against the two-line definition; every filter over a richer byte set (additionally space, newline, tab and a two-byte UTF-8 character) through Display -> FromStr; set/get on existing and missing documents in memory and through reopen of a file-backed store; every history of length <= d over {set policy q on document 0|1 (6 policies incl. the default and both empty kinds), set on a missing document, reopen}: after every step each document reads what was set last on it; should_download of real remote-insert events for every policy with <= 1 filter x every key; non-trivial = a policy with at least one filter evaluated on a key that at least one of its filters matches",
+        rule: "all policies of both kinds with <= 2 filters, each filter exact/prefix over byte strings of length <= 2 from {a, b, ':', 0xff, 0x00} (empty filter, non-UTF-8, a colon for the textual form), evaluated on all keys of length <= 3 over the same bytes against the two-line definition; every filter over a richer byte set (additionally space, newline, tab and a two-byte UTF-8 character) through Display -> FromStr; set/get on existing and missing documents in memory and through reopen of a file-backed store; every history of length <= d over {set policy q on document 0|1 (6 policies incl. the default and both empty kinds), set on a missing document, reopen}: after every step each document reads what was set last on it, and — the same histories through the store actor with both documents kept open and subscribed — a fresh entry at a matching and at a non-matching key, arriving as a single remote insert and inside a reconciliation message, carries the download flag of the policy in force at that moment; should_download of real remote-insert events for every policy with <= 1 filter x every key; non-trivial = a policy with at least one filter evaluated on a key that at least one of its filters matches",
         assumptions: &["filters longer than 2 bytes (3 in thorough for the textual form) and more than 2 filters per policy are outside the alphabet"],
         bound: |t| match t {
             Tier::Quick => json!({"policies": 7814, "keys": 156, "textual_filters": "length <= 2", "persisted_policies": "all in memory, every 16th through file reopen", "policy_histories": "depth <= 3 in memory, <= 2 file-backed with reopen"}),
@@ -283,6 +283,129 @@ fn check_events(p: &P, keys: &[Vec<u8>]) -> Vec<(&'static str, String)> {
     bad
 }
 
+/// The same policy histories through the store actor, with both documents kept open (sync on, one
+/// subscriber each) across all policy changes: after every step a fresh entry arrives at a key the
+/// filters of the history policies match ("a") and at one they do not ("b"), once as a single
+/// remote insert and once inside a reconciliation message, and the download flag of the event must
+/// follow the policy that is in force *now* (not the one in force when the document was opened or
+/// when the previous entry arrived).
+fn check_history_open(hist: &[H]) -> Vec<(&'static str, String)> {
+    use iroh_docs::actor::{OpenOpts, SyncHandle};
+    let pols = history_policies();
+    let mut bad = vec![];
+    crate::props::common::set_clock(NOW);
+    let mut store = iroh_docs::store::Store::memory();
+    for d in [0u8, 1] {
+        store.import_namespace(Capability::Write(ns_secret(d))).expect("import");
+    }
+    let h = SyncHandle::spawn(store, None, "c15".into());
+    let mut rxs = vec![];
+    for d in [0u8, 1] {
+        let (tx, rx) = async_channel::unbounded();
+        block_on(h.open(ns_id(d), OpenOpts::default().sync().subscribe(tx))).expect("open");
+        rxs.push(rx);
+    }
+    // a second store plays the remote peer of the reconciliation messages
+    let mut peer = Sut::memory_with(&[0, 1]);
+    let missing = NamespaceId::from(&[0x66u8; 32]);
+    let mut model: [P; 2] = [(false, vec![]), (false, vec![])];
+    'steps: for (i, (target, q)) in hist.iter().enumerate() {
+        let pol = &pols[*q as usize];
+        match target {
+            0 | 1 => {
+                if let Err(e) = block_on(h.set_download_policy(ns_id(*target), policy(pol))) {
+                    bad.push(("set_ok", format!("step {i} (store actor): {e:#}")));
+                }
+                model[*target as usize] = pol.clone();
+            }
+            2 => {
+                if block_on(h.set_download_policy(missing, policy(pol))).is_ok() {
+                    bad.push(("set_only_for_existing_document", format!("step {i} (store actor): set_download_policy succeeded for a missing document")));
+                }
+            }
+            _ => {}
+        }
+        for d in 0..2usize {
+            match block_on(h.get_download_policy(ns_id(d as u8))) {
+                Ok(got) if got == policy(&model[d]) => {}
+                other => bad.push(("policy_returned_unchanged", format!("after step {i} (store actor): document {d} was last set to {} but reads {other:?}", show_p(&model[d])))),
+            }
+            while rxs[d].try_recv().is_ok() {}
+            for (path, key) in [(0u8, &b"a"[..]), (0, b"b"), (1, b"a"), (1, b"b")] {
+                // fresh (author, key, timestamp) per step and path, so every entry is applied
+                let e = SignedEntry::from_parts(
+                    &ns_secret(d as u8),
+                    &author(path),
+                    key,
+                    Record::new(Val::X.hash_len().0, 1, T0 + 5 + i as u64),
+                );
+                let applied = if path == 0 {
+                    block_on(h.insert_remote(ns_id(d as u8), e, PEER, ContentStatus::Complete)).is_ok()
+                } else {
+                    // the peer holds the entry; a reconciliation session brings it over
+                    let _ = peer.remote(ns_id(d as u8), e);
+                    let mut peer_state = Default::default();
+                    let mut ours = Default::default();
+                    let mut ok = true;
+                    let mut msg = block_on(h.sync_initial_message(ns_id(d as u8))).ok();
+                    let mut to_peer = true;
+                    let mut rounds = 0;
+                    while let Some(m) = msg.take() {
+                        rounds += 1;
+                        if rounds > 60 {
+                            ok = false;
+                            break;
+                        }
+                        msg = if to_peer {
+                            peer.sync_process(ns_id(d as u8), m, PEER, &mut peer_state).ok().flatten()
+                        } else {
+                            match block_on(h.sync_process_message(ns_id(d as u8), m, PEER, ours)) {
+                                Ok((reply, st)) => {
+                                    ours = st;
+                                    reply
+                                }
+                                Err(_) => {
+                                    ok = false;
+                                    ours = Default::default();
+                                    None
+                                }
+                            }
+                        };
+                        to_peer = !to_peer;
+                    }
+                    ok
+                };
+                let mut flags = vec![];
+                while let Ok(ev) = rxs[d].try_recv() {
+                    if let Event::RemoteInsert { should_download, entry, .. } = ev {
+                        if entry.key() == key {
+                            flags.push(should_download);
+                        }
+                    }
+                }
+                let want = definition(&model[d], key);
+                if !applied || flags != vec![want] {
+                    bad.push((
+                        "should_download_follows_the_policy_in_force",
+                        format!(
+                            "after step {i} of {:?}: document {d} (kept open in the store actor) has policy {}; a fresh entry at \"{}\" arriving {} gave applied={applied}, download flags {flags:?}, the policy says {want}",
+                            hist.iter().map(|(t, q)| format!("{}:{}", t, show_p(&pols[*q as usize]))).collect::<Vec<_>>(),
+                            show_p(&model[d]),
+                            show_key(key),
+                            if path == 0 { "as a single remote insert" } else { "inside a reconciliation message" },
+                        ),
+                    ));
+                }
+            }
+        }
+        if !bad.is_empty() {
+            break 'steps;
+        }
+    }
+    let _ = block_on(h.shutdown());
+    bad
+}
+
 /// Policies of the history family: the default, both empty kinds, and a few with filters.
 fn history_policies() -> Vec<P> {
     vec![
@@ -442,7 +565,13 @@ fn run(ctx: &Ctx, report: &mut Report) {
                     report.nontrivial += 1;
                 }
                 let case = json!({"history": hist, "file": file});
-                match catch(|| check_history(&hist, file)) {
+                match catch(|| {
+                    let mut b = check_history(&hist, file);
+                    if !file {
+                        b.extend(check_history_open(&hist));
+                    }
+                    b
+                }) {
                     Err(pn) => report.violation("no_panic", json!({"family": "history"}), case, format!("panic: {pn}"), ordinal),
                     Ok(bad) => {
                         for (o, d) in bad {
@@ -487,7 +616,13 @@ fn replay(case: &Value) -> anyhow::Result<(bool, String)> {
     if let Some(h) = case.get("history") {
         let hist: Vec<H> = serde_json::from_value(h.clone())?;
         let file = case["file"].as_bool().unwrap_or(false);
-        return match catch(|| check_history(&hist, file)) {
+        return match catch(|| {
+            let mut b = check_history(&hist, file);
+            if !file {
+                b.extend(check_history_open(&hist));
+            }
+            b
+        }) {
             Err(pn) => Ok((true, format!("panic: {pn}"))),
             Ok(bad) => {
                 let out: String = bad.iter().map(|(o, d)| format!("FAILED {o}: {d}\n")).collect();
